@@ -1,8 +1,8 @@
 CONSTANTS
   Deviations <- DevNone
-  NF = 3
-  Bodies <- Bodies09_graph_t
-  Layouts <- LayNest3
+  NF = 4
+  Bodies <- Bodies09_graph4
+  Layouts <- LayNest4
   Cmds <- CmdBuild
   Cwds <- Cwd0
   Orders <- OrdersFirst
